@@ -613,7 +613,8 @@ class Interp:
 
     def binop(self, op, a, b):
         ops = {ast.Add: operator.add, ast.Sub: operator.sub, ast.Mult: operator.mul, ast.Mod: operator.mod,
-               ast.FloorDiv: operator.floordiv, ast.Div: operator.truediv}
+               ast.FloorDiv: operator.floordiv, ast.Div: operator.truediv, ast.BitOr: operator.or_, ast.BitAnd: operator.and_,
+               ast.BitXor: operator.xor}
         fn = ops.get(type(op))
         if fn is None:
             raise LexUnknown(f"operator {type(op).__name__}")
